@@ -576,7 +576,7 @@ func suiteFsdur(seed uint64, tier string) *Report {
 			continue
 		}
 		tracePath := filepath.Join(dir, "trace.txt")
-		cmd := exec.Command("strace", "-f", "-y", "-s", "64", "-e", "trace=openat,fallocate,pwrite64,write,fsync,fdatasync,unlink,unlinkat,rename,renameat,renameat2,ftruncate,newfstatat",
+		cmd := exec.Command("strace", "-f", "-y", "-s", "64", "-e", fsdurTraceSet,
 			"-o", tracePath, os.Args[0], "fsdurwork", dir, fmt.Sprint(seed*100+uint64(k)))
 		outb, err := cmd.CombinedOutput()
 		if err != nil {
@@ -650,6 +650,7 @@ func suiteFsdur(seed uint64, tier string) *Report {
 		rep.Dist["syscalls_parsed"] += len(evs)
 		os.RemoveAll(dir)
 	}
+	viols = append(viols, fsdurFault(base, rep, shapes, c)...)
 	vv := viols
 	c.Monitor = func(ops, impl []string) []Violation { return vv }
 	RunCases("fsdur", []*Case{c}, rep)
